@@ -116,3 +116,42 @@ package enc
 //@   props C11
 //@   requires len(name) >= 1
 //@   ensures len(result) >= 2 && result[0] == '%' && ((alldigits(name) && result[1:len(result)] == name) || (!alldigits(name) && lexName(result[1:len(result)], name)))
+
+//@ # ---- quoted strings -------------------------------------------------------
+//@ # quotedLike(v): v accepts exactly the bytes printed verbatim inside "..." (everything else is \XX)
+//@ spec quotedLike(v bytepred) bool = forall(b byte, v(b) == inquoted(b), pattern(v(b)))
+//@ spec isQuoted(r string, s string, v bytepred) bool = len(r) >= 2 && r[0] == '"' && r[len(r)-1] == '"' && isEsc(r[1:len(r)-1], s, v)
+//@ func EscapeString$1
+//@   props C11
+//@   ensures result == inquoted(b)
+//@ func EscapeString
+//@   props C11
+//@   ensures exists(v bytepred, quotedLike(v) && isEsc(result, old(string(s)), v), pattern(cnt(old(string(s)), v, len(s))))
+//@ func Quote
+//@   props C11
+//@   ensures exists(v bytepred, quotedLike(v) && isQuoted(result, old(string(s)), v))
+//@ # Unquote undoes Quote: for every byte string orig, a token that is orig quoted decodes to orig.
+//@ func Unquote
+//@   props C11
+//@   behaviour safety:
+//@     requires len(s) >= 2 && s[0] == '"' && s[len(s)-1] == '"'
+//@   behaviour inverse(ghost orig string, ghost v bytepred):
+//@     requires isQuoted(s, orig, v) && quotedLike(v)
+//@     instantiate Unescape.inverse(orig, v)
+//@     ensures string(result) == orig
+
+//@ # ---- metadata names -------------------------------------------------------
+//@ spec isdig(b byte) bool = '0' <= b && b <= '9'
+//@ # tailLike(v): v accepts exactly LLVM's identifier characters (everything else is \XX)
+//@ spec tailLike(v bytepred) bool = forall(b byte, v(b) == intail(b), pattern(v(b)))
+//@ func MetadataName$1
+//@   props C11
+//@   ensures result == intail(b)
+//@ # "!" followed by the escaped name; a leading digit is itself escaped (\3X is the hexadecimal escape of
+//@ # the digit X), so that a name is never mistaken for an unnamed metadata ID.
+//@ func MetadataName
+//@   props C11
+//@   requires len(name) > 0
+//@   ensures len(result) >= 2 && result[0] == '!' && !isdig(result[1])
+//@   ensures !isdig(name[0]) ==> exists(v bytepred, tailLike(v) && isEsc(result[1:len(result)], name, v))
+//@   ensures isdig(name[0]) ==> len(result) >= 4 && result[1] == '\\' && result[2] == '3' && result[3] == name[0] && exists(v bytepred, tailLike(v) && isEsc(result[4:len(result)], name[1:len(name)], v))
